@@ -130,6 +130,7 @@ def cases(tier, inst):
                  (("a", A(X, "t")), ("b", X), ("c", L(None)))):
         for c in (None,) + tuple(REP1):
             yield ("ctor", args, c)
+    yield from fa_cases()
     # flattened elements
     for sel in ((X, ("fl", A(X, "items"))), (("fl", A(X, "items")),), (("fl", A(X, "items")), X)):
         e = ("fl", A(X, "items"))
@@ -139,8 +140,37 @@ def cases(tier, inst):
             yield ("flat", sel, c)
 
 
+def fa_cases():
+    """the universal of a for_all is a VALUE: every value of u.p / u.s / u.flag / of the elements of x.items counts, the
+    falsy ones included"""
+    xp, xq, xs, xt = A(X, "p"), A(X, "q"), A(X, "s"), A(X, "t")
+    for u, conds in ((A(Y, "p"), (("cmp", "ge", xp, A(Y, "p")), ("cmp", "ne", xq, A(Y, "p")), ("in", A(Y, "p"), xt),
+                                  ("cmp", "gt", A(Y, "p"), xq))),
+                     (A(Y, "q"), (("cmp", "ge", xp, A(Y, "q")), ("cmp", "eq", xq, A(Y, "q")), ("cmp", "ne", A(Y, "q"), xp))),
+                     (A(Y, "s"), (("cmp", "eq", xs, A(Y, "s")), ("cmp", "ne", xs, A(Y, "s")))),
+                     (A(Y, "flag"), (("cmp", "eq", A(X, "flag"), A(Y, "flag")), ("cmp", "ne", A(X, "flag"), A(Y, "flag")))),
+                     (("c", Y, "get_p", ()), (("cmp", "ge", xp, ("c", Y, "get_p", ())),))):
+        for c in conds:
+            for place in ("alone", "before", "after"):
+                yield ("fa", u, c, place)
+                yield ("fa", u, ("not", c), place)
+    e = ("fl", A(X, "items"))
+    for c in (("cmp", "ne", e, L(0)), ("cmp", "eq", e, A(X, "p")), ("in", e, L((0, None, ""))), ("cmp", "ne", e, L(None)),
+              ("has", L((2, 1, False)), e)):
+        for place in ("before", "after"):
+            yield ("fa", e, c, place)
+            yield ("fa", e, ("not", c), place)
+
+
 def query_of(case):
     fam = case[0]
+    if fam == "fa":
+        _, u, c, place = case
+        fa = ("fa", u, c)
+        # (for the un-nested universal: parents without elements are left out, the statement speaks of non-empty domains)
+        other = ("cmp", "ne", A(X, "items"), L(())) if u[0] == "fl" else ("cmp", "ge", A(X, "q"), L(0))
+        conds = {"alone": (fa,), "before": (("andf", other, fa),), "after": (("andf", fa, other),)}[place]
+        return ("Q", "an", "setof", (X,), conds, (VX,)), "query"
     if fam == "cond1":
         return ("Q", "an", "setof", (X,), (case[1],), (VX,)), "query"
     if fam == "cond2":
@@ -200,6 +230,12 @@ def run_case(case, inst):
                 got = exc_obs(e)
             exp = [(ref.value(q[3], env),) for env in ref.solutions(q)]
             total = None
+        elif fam == "fa":
+            universals = () if case[1][0] == "fl" else (VY,)
+            ref = Q.Ref(world, inst, universals=universals)
+            got = eval_rows(q, world, inst, predeclare=universals)
+            exp = [tuple(ref.value(s, env) for s in q[3]) for env in ref.solutions(q)]
+            total = len(world["FA"])
         elif fam == "roles":
             try:
                 obj, b = Q.build(q, world, inst, share_terms="all")
@@ -216,7 +252,7 @@ def run_case(case, inst):
         return got, exp, total
 
     got, exp, total = run_isolated(body)
-    d = diff_rows(got, exp, count=fam in ("cond1", "cond2", "field", "fieldm", "ctor", "flat", "esel", "roles"))
+    d = diff_rows(got, exp, count=fam in ("cond1", "cond2", "field", "fieldm", "ctor", "flat", "esel", "roles", "fa"))
     res = {"ok": d is None, "nontrivial": len(exp) > 0 and (total is None or len(exp) < total) if fam != "cond1"
            else 0 < len(exp) < len(FA), "transitions": 1 + (0 if is_exc(got) else len(got)),
            "tags": [f"family={fam}"], "outcome": f"{fam}:{len(exp)}"}
@@ -227,5 +263,7 @@ def run_case(case, inst):
 
 def describe(case, inst):
     q, mode = query_of(case)
-    return (Q.up_world(WSPEC, inst) + "\n" + Q.up_query(q, inst, mode=mode)
+    return (Q.up_world(WSPEC, inst) + ("\nwith symbolic_mode(): y = let(Item, FB)   # the universal variable"
+                                       if case[0] == "fa" and case[1][0] != "fl" else "")
+            + "\n" + Q.up_query(q, inst, mode=mode)
             + "\nrows = list(q.evaluate())   # expected: ordinary Python semantics, falsy values are values")
